@@ -44,6 +44,9 @@ func (d *DBFT[H]) sendPrepareRequest(force bool) {
 
 	d.PreparationPayloads[d.MyIndex] = msg
 	d.broadcast(msg)
+	// Responses (and commits) may have been received before the proposal was
+	// made, check them against it the same way backups do.
+	d.updateExistingPayloads(msg)
 
 	d.prepareSentTime = d.Timer.Now()
 
